@@ -46,12 +46,13 @@ PLATFORM_ORDER_CELLS = [
     ("https://www.youtube.com/watch", [("v", "abcdefghijk"), ("rev", "1")]), ("https://www.youtube.com/watch", [("v", "abcdefghijk"), ("tv", "1")]), ("https://www.youtube.com/watch", [("v", "abcdefghijk"), ("list", "PL1")]),
     ("https://www.youtube.com/watch", [("v", "abcdefghijk"), ("playlist", "PL1")]), ("https://www.youtube.com/watch", [("v", "abcdefghijk"), ("feature", "share"), ("t", "3")]), ("https://m.youtube.com/watch", [("v", "abcdefghijk"), ("nov", "x")]),
     ("https://www.facebook.com/permalink.php", [("story_fbid", "55"), ("id", "100")]), ("https://www.facebook.com/photo.php", [("fbid", "10"), ("set", "a.1"), ("type", "3")]), ("https://www.facebook.com/profile.php", [("id", "100"), ("sk", "about")]),
+    ("https://www.facebook.com/watch/", [("v", "311658803718223"), ("ref", "sharing")]), ("https://www.facebook.com/some.page/videos/12/", [("comment_id", "5"), ("x", "1")]),
     ("http://a.com/x", [("b", "2"), ("a", "1"), ("c", "")]),
 ]
 
 
 def platform_query_order(ctx, rule):
-    ctx.rule(rule, "order of query items under platform_aware=True: normalize_url, interpreted on every permutation of the items of one url per platform route {YouTube watch with a key that ends like 'v' / 'list' (rev, tv, playlist, nov), with a real list, with dropped keys; Facebook permalink / photo / profile; an ordinary site}, gives one result per url (the platform parsers read whole keys, whatever comes first)")
+    ctx.rule(rule, "order of query items under platform_aware=True: normalize_url, interpreted on every permutation of the items (joined with '&' and with '&amp;') of one url per platform route {Facebook watch / video, YouTube watch with a key that ends like 'v' / 'list' (rev, tv, playlist, nov), with a real list, with dropped keys; Facebook permalink / photo / profile; an ordinary site}, gives one result per url (the platform parsers read whole keys, whatever comes first)")
     import itertools
     from . import tables as TB
     repo = ctx.repo
@@ -63,8 +64,9 @@ def platform_query_order(ctx, rule):
         results = {}
         try:
             for perm in itertools.permutations(items):
-                u = base + "?" + "&".join("%s=%s" % kv for kv in perm)
-                results[u] = TB.call_s(repo, "normalize_url", "normalize_url", u, platform_aware=True)
+                for sep in ("&", "&amp;"):  # '&amp;' written for '&' is one of the documented-irrelevant spellings, also for what the platform parsers read
+                    u = base + "?" + sep.join("%s=%s" % kv for kv in perm)
+                    results[u] = TB.call_s(repo, "normalize_url", "normalize_url", u, platform_aware=True)
         except Unknown as e:
             ctx.undecided(rule, "normalize_url(%r, platform_aware=True): %s" % (base, e))
             continue
